@@ -190,8 +190,8 @@ func (r *rw) file(f *ast.File) {
 			if n.Pos() == token.NoPos {
 				return true
 			}
-			if _, ok := c.Parent().(*ast.CommClause); ok {
-				return true
+			if cc, ok := c.Parent().(*ast.CommClause); ok && cc.Comm == ast.Stmt(n) {
+				return true // the communication of a select case is handled by rewriteSelect
 			}
 			c.Replace(&ast.BlockStmt{List: r.sendStmts(n)})
 		case *ast.RangeStmt:
